@@ -167,9 +167,12 @@ def observe(ctx, values: list[dict], tasks: list[dict], moddir: Path):
             run = None
             if r["spec"].get("run", True) and not r["parent"].startswith("!"):
                 # child 0 and 1 share one cache root (second session finds the first's result); the others use their own
-                # root; the worker alternates
+                # root; the second session uses the concurrent-futures worker (quick tier: for the first python task only)
                 root = shared_root if n < 2 else ctx.scratch / f"cache-{seed}"
-                run = {"cache_root": str(root / f"t{k}"), "worker": "debug" if n % 2 == 0 else "cf"}
+                is_py = r["spec"]["task"]["kind"] == "python"
+                first_py = is_py and not any(x["spec"]["task"]["kind"] == "python" for x in trows[:k])
+                cf = n == 1 and is_py and (first_py or not ctx.quick)
+                run = {"cache_root": str(root / f"t{k}"), "worker": "cf" if cf else "debug"}
             jobs.append({"task": r["spec"]["task"], "run": run, "hash_value": bool(r["spec"].get("hash_value")), "want_case": True})
         ans = H.run_child(jobs, seed, moddir, timeout=ctx.pick(900, 3000))
         for r, a in zip(vrows, ans[: len(vrows)]):
@@ -200,7 +203,7 @@ def judge_values(ctx, vrows):
                 q.append({"op": "hash", "v": c})
             else:
                 idx.append(None)
-    ans = ctx.driver("Hash", q)
+    ans = H.model(ctx, q)
     it = iter(idx)
     for r in vrows:
         obs = {"parent": r["parent"], "children": [ch["hex"] for ch in r["children"]]}
@@ -258,7 +261,7 @@ def judge_tasks(ctx, trows):
                 q.append({"op": "hash", "v": c})
             else:
                 where.append(("hex", None))
-    ans = ctx.driver("Hash", q)
+    ans = H.model(ctx, q)
     it = iter(where)
     for r in trows:
         spec = r["spec"]
@@ -332,13 +335,12 @@ def correspondence(ctx):
     hc.mkdir(exist_ok=True)
     os.environ["PYDRA_HASH_CACHE"] = str(hc)
     os.environ["VERIF_CNT"] = str(ctx.scratch / "count.txt")
-    if not H.validate_blake2b(ctx, 12):
-        return
+    H.validate_blake2b(ctx, 12)
     rows = [json.loads(l) for l in CORPUS.read_text().splitlines() if l.strip()]
     values = [r["spec"] for r in rows if r["kind"] == "value"]
     tasks = [{"task": r["task"], "hash_value": r.get("hash_value", False), "name": r["name"]} for r in rows if r["kind"] == "task"]
     n_corpus_v, n_corpus_t = len(values), len(tasks)
-    nv, nt = ctx.pick(40, 400), ctx.pick(3, 30)
+    nv, nt = ctx.pick(30, 250), ctx.pick(2, 16)
     while len(values) < n_corpus_v + nv:
         s = gen_value(ctx.rng)
         if H.valid(s) and not H.has_cycle(s):
